@@ -5,6 +5,7 @@ each path of `parse` under a scenario, using the idioms the repository actually 
     x = p[:n]; del p[:n]      x = p[0]; del p[0]      MPI(p)   ECPoint(p)   sub.parse(p)   Klass(p)
     sub.parse(p[:n]); del p[:n]        whole-buffer alias  x = p        loops (summarised)
 """
+import ast
 import re
 
 from .interp import Interp, Scenario, Sym, Const, Bytes, render, render_items, merge_consts, render_item, lin_norm, lin_add
@@ -106,6 +107,9 @@ def reader_sequence(state, buf='packet', cls=None, recv='self'):
                 return p.setters[tn]
         return None
 
+    callnodes = {}
+    for c in state.calls:
+        callnodes.setdefault((c[0], tuple(c[1]), c[3]), c[4])
     for ev in _dedupe_pops(state.events, buf):
         kind = ev[0]
         ctor, last_ctor = last_ctor, None
@@ -254,6 +258,19 @@ def reader_sequence(state, buf='packet', cls=None, recv='self'):
                 for a in allargs:
                     sl = slice_of(a, buf) if (a.startswith('SLICE(%s;' % buf) and a.endswith(')')) else None
                     if sl is not None and (base == 'parse' or base in DELEGATES):
+                        node = callnodes.get((ft, tuple(args), line))
+                        argn = None
+                        if node is not None:
+                            pos = list(node.args) + [k.value for k in node.keywords]
+                            argn = pos[allargs.index(a)] if allargs.index(a) < len(pos) else None
+                        if isinstance(argn, ast.Name):
+                            # a local is handed over: the octets it holds were read (and possibly consumed) earlier - no new read
+                            held = [r for r in reads if r.text == a and (r.target == argn.id or argn.id in r.locals)]
+                            if held:
+                                if held[-1].kind == 'fixed':
+                                    held[-1].kind = 'fixed-delegate'
+                                held[-1].via = ft
+                                continue
                         same = [r for r, rs in pending if rs == sl]
                         if same:
                             # the slice was taken into a local first and is handed to the sub-parser now: one field, not two
